@@ -683,6 +683,18 @@ def key_exists_in_list_or_dict(key, lst_or_dct):
             return True
     return False
 
+def safe_repr(value):
+    """
+    :func:`repr` that never raises
+
+    `repr` fails for integers with too many digits (ValueError) and for lists
+    and dictionaries that are nested too deeply (RecursionError).
+    """
+    try:
+        return repr(value)
+    except Exception:
+        return f'<{type(value).__name__}>'
+
 def assert_type(obj, keys, exp_types, must_exist=True, check=None):
     """
     Raise MetainfoError if value is not of a particular type
@@ -728,10 +740,10 @@ def assert_type(obj, keys, exp_types, must_exist=True, check=None):
             exp_types_str = ' or '.join(t.__name__ for t in exp_types)
         type_str = type(obj[key]).__name__
         raise error.MetainfoError(f'{keychain_str}[{key!r}] must be {exp_types_str}, '
-                                  f'not {type_str}: {obj[key]!r}')
+                                  f'not {type_str}: {safe_repr(obj[key])}')
 
     elif check is not None and not check(obj[key]):
-        raise error.MetainfoError(f"{keychain_str}[{key!r}] is invalid: {obj[key]!r}")
+        raise error.MetainfoError(f"{keychain_str}[{key!r}] is invalid: {safe_repr(obj[key])}")
 
 
 def force_as_string(value):
